@@ -358,12 +358,15 @@ PLANS["C13"] = {
              "pattern bytes; a hit is confirmed by repeating the schedule with another byte on a fresh manager; 15 "
              "key helpers are scanned after each call. distinct = distinct (variant, cipher, hash, class, job "
              "count, length mode) tuples; non-trivial = a scan was actually taken (schedules whose secrets cannot "
-             "be patterned are skipped and not counted). Messages and AAD of GHASH-type MACs are in half of the schedules single-bit blocks (x^(8k) in GF(2^128)), so that GHASH partial products (message x hash key) are byte-shifted copies of the key and product residue is visible to the pattern oracle; bit-length ciphers also run with non-byte bit lengths and single-block messages."),
-    "floors": {"quick": {"residue_scans": 15000, "helper_scans": 150}},
+             "be patterned are skipped and not counted). Messages and AAD of GHASH-type MACs are in half of the schedules single-bit blocks (x^(8k) in GF(2^128)), so that GHASH partial products (message x hash key) are byte-shifted copies of the key and product residue is visible to the pattern oracle; bit-length ciphers also run with non-byte bit lengths and single-block messages. Fourth class DERIVED (AEAD-type "
+             "suites and standalone GMAC): keys are random, the secrets the library derives itself - H = E_K(0) and "
+             "E_K(J0) of AES-GCM/GMAC and SM4-GCM, the one-time Poly1305 key of ChaCha20-Poly1305, hash key and end "
+             "pad of SNOW-V-AEAD - are computed with the reference models and registers, stack window and manager are "
+             "searched for either 8-byte half of each value."),
+    "floors": {"quick": {"residue_scans": 15000, "helper_scans": 150, "derived_secret_searches": 20000}},
     "assumptions": ["only residue present at the return of the emptying API call is observable",
-                    "derived secrets that are not byte patterns (round keys computed from a real key, Poly1305 "
-                    "one-time key, LFSR states) are outside the pattern oracle; expanded key material is patterned "
-                    "directly instead"],
+                    "derived secrets other than those listed under DERIVED (round keys computed from a real key, "
+                    "LFSR states, CCM S0) are outside both oracles; expanded key material is patterned directly instead"],
 }
 
 
